@@ -26,12 +26,14 @@ def main(tier):
                'record model with 3 underground layers: layer 1 (top), an interior layer and the bottom layer cover the code\'s case distinctions',
                'whole-geometry obligations: real mulgrid.rectangular() + t2grid.fromgeo() run by the executor for 7 (nx, ny, nz, atmosphere type, convention, number of symbolic column surfaces) shapes with '
                'symbolic spacings, origin (all three coordinates), surfaces anywhere above the model bottom, atmosphere volume and connection distance',
-               'irregular polygons, other sizes, tilted geometries, permeability angles, block maps: bounded')
+               'irregular geometries: a real rectangular geometry refined on a column subset by the real refine() (quadrilaterals and triangles, symbolic vertex coordinates), 2 instances quick / 5 thorough; horizontal areas and perpendicular distances are stated through their squares',
+               'shipped irregular meshes, other sizes, tilted geometries, permeability angles, block maps: bounded')
     chk.explanation = ('clause -> evidence: block top / volume / centre formulas incl. truncated and above-grid surface blocks: PROVED (all surface positions, 3 layer positions x 3 atmosphere types); '
                        'column volumes telescope to area x depth: PROVED; horizontal area = edge length x lower height, distances = perpendicular distances: PROVED; '
                        'vertical connections: column area, cosine -1, lower block first, distances add to centre separation / surface distance + atmosphere connection: PROVED on the real '
                        'add_vertical_layer_connections; horizontal cosine = -dz/|d| (0 iff equal elevation): PROVED; untilted tilt vector (0,0,-1), unit length when tilted: PROVED; '
                        'shoelace area n=3..6: PROVED. Whole grid from a real rectangular geometry (constructor and fromgeo run by the executor): blocks and connections are the announced ones in order, every block volume / centre, '
                        'total rock volume = sum of area x depth to surface, every horizontal / vertical / atmosphere connection per the statement: PROVED for the 7 shapes listed under assume, all spacings and surfaces. '
-                       'Irregular and refined meshes, block maps, other sizes: BOUNDED.')
+                       'Whole grid from a refined (irregular) geometry: announced blocks and connections, volumes, total rock volume, vertical and atmosphere connections exactly, horizontal area^2 = |edge|^2 x (lower height)^2 and distance^2 x |edge|^2 = cross(edge, centre - node)^2: PROVED for the instances under assume. '
+                       'Shipped irregular meshes, block maps, other sizes: BOUNDED.')
     return chk.finish()
